@@ -224,7 +224,7 @@ int main(int argc, char **argv)
     Run &R = run();
 
     // ---- the term pool (de-duplicated to level 2: gcc time per term dominates)
-    PoolCfg pc = pool_cfg(thorough ? 1 : -1);
+    PoolCfg pc = pool_cfg(thorough ? 0 : -1);
     pc.maxn = 2;
     TermPool P;
     build_pool(P, pc, "pool");
@@ -410,16 +410,7 @@ int main(int argc, char **argv)
                         }
                 flags = strict + " -D_DEFAULT_SOURCE"; // the values are still checked, with the C99 functions declared
             }
-            // pass 1 (syntax only): find the functions gcc rejects, replace them by stubs
-            c.count(KC_GCC_RUNS);
-            if (run_cmd(flags + " -fsyntax-only " + cfile, out) != 0) {
-                std::map<int, std::string> bad = parse_errors(out, cfile);
-                if (bad.empty())
-                    c.violation(std::string(VNAME[v]) + ":gcc-failed-without-locatable-error", "gcc failed for " + cs.desc(b) + ": " + out.substr(0, 400));
-                for (auto &kv : bad)
-                    reject(kv.first, kv.second);
-            }
-            // pass 2: compile and link
+            // compile and link; a failed run lists every rejected function (no code is generated), they become stubs
             for (int attempt = 0; attempt < 3 && !compiled; attempt++) {
                 write_c(cfile, fns, v == V_C99F);
                 c.count(KC_GCC_RUNS);
